@@ -68,6 +68,38 @@ def handle (op : String) (j : Json) : Except String Json := do
           ("errors", Json.arr (d.errors.map (fun (l, t) => Json.arr #[Json.num (JsonNumber.fromNat l), jstr t])).toArray),
           ("n_stages", Json.num (JsonNumber.fromNat d.stages.length))])]),
         ("exports", Json.arr ex.toArray)])
+  | "doc.transpose" =>
+    let text ← getStr j "text"
+    let table ← oracleOfJson (← j.getObjVal? "oracle")
+    let iv ← getStr j "iv"
+    let dir ← getStr j "dir"
+    match Importer.importString (parserOf table) text with
+    | .error e => pure (Json.mkObj [("err", Json.str (errName e))])
+    | .ok d =>
+      match Transpose.toTransposed d iv dir with
+      | .error e => pure (Json.mkObj [("err", Json.str (errName e))])
+      | .ok (r, src) =>
+        pure (Json.mkObj [("ok", Json.mkObj [("result", jexcept jstr (Export.exportString r Export.defaultOpts)),
+          ("source_after", jexcept jstr (Export.exportString src Export.defaultOpts))])])
+  | "doc.listing" =>
+    let text ← getStr j "text"
+    let table ← oracleOfJson (← j.getObjVal? "oracle")
+    let filters ← (← getArr j "filters").toList.mapM (fun f => match f with
+      | .null => pure (none : Option (List Cat))
+      | _ => do
+        let a ← f.getArr?
+        let cs ← a.toList.mapM catOfJson
+        pure (some (cs.filterMap id)))
+    match Importer.importString (parserOf table) text with
+    | .error e => pure (Json.mkObj [("err", Json.str (errName e))])
+    | .ok d =>
+      let jl (l : List Tok) : Json := Json.arr (l.map (fun t => Json.arr #[jstr t.enc, Json.num (JsonNumber.fromNat t.cat.idx)])).toArray
+      pure (Json.mkObj [("ok", Json.mkObj [
+        ("listings", Json.arr (filters.map (fun f => jl (ReadOnly.listing d f))).toArray),
+        ("uniques", Json.arr (filters.map (fun f => jl (ReadOnly.uniqueToks (ReadOnly.listing d f) []))).toArray),
+        ("metacomments", Json.arr ((ReadOnly.metacomments d none).map jstr).toArray),
+        ("measures", jexcept (fun n => Json.num (JsonNumber.fromNat n)) (ReadOnly.measuresCount d)),
+        ("spine_types", jexcept (fun l => Json.arr (l.map jstr).toArray) (Export.getSpineTypes d none))])])
   | "doc.rows" =>
     let text ← getStr j "text"
     pure (Json.arr ((readRows text).map (fun r => Json.arr (r.map jstr).toArray)).toArray)
